@@ -10,17 +10,7 @@ private def tspec (n : Name) (T : Name) (v : Int) : VSpec :=
   { names := [n], ty := some T, hasVals := true, exprTy := none, vals := [v] }
 
 def c01Pkg (bit : Bool) (T : Name) (specs : List VSpec) : PkgCase :=
-  { bit := bit, sql := false, gorm := false, types := [T], blocks := [specs], wellFormed := true }
-
-/-- `type C int8; const CA C = -1`: the run exits 1 -/
-theorem C01_F_enumNegative_witness :
-    c01Region (c01Pkg false ['C'] [tspec ['C', 'A'] ['C'] (-1)]) = "F_enumNegative" ∧
-    (c01Model (c01Pkg false ['C'] [tspec ['C', 'A'] ['C'] (-1)])).1 = 1 := by decide
-
-/-- `type U uint64; const UB U = 1 << 63`: the run exits 1 -/
-theorem C01_F_enumBig_witness :
-    c01Region (c01Pkg false ['U'] [tspec ['U', 'B'] ['U'] 9223372036854775808]) = "F_enumBig" ∧
-    (c01Model (c01Pkg false ['U'] [tspec ['U', 'B'] ['U'] 9223372036854775808])).1 = 1 := by decide
+  { bit := bit, sql := false, gorm := false, types := [(T, ⟨true, 64⟩)], blocks := [specs], wellFormed := true }
 
 /-- `type D int; const ( DA D = 1; DB D = 1 )`: exit 0, the map literals have duplicate keys -/
 theorem C01_F_enumDupKey_witness :
@@ -36,6 +26,10 @@ theorem C01_F_enumDupKey_name_witness :
 theorem C01_F_enumBitMap_enum_witness :
     c01Region (c01Pkg true ['F'] [tspec ['F', 'A'] ['F'] 1]) = "F_enumBitMap" ∧
     c01Model (c01Pkg true ['F'] [tspec ['F', 'A'] ['F'] 1]) = (0, true, false) := by decide
+
+/-- negative constants are ordinary since /repo 9f224b6 -/
+example : c01Region (c01Pkg false ['C'] [tspec ['C', 'A'] ['C'] (-1), tspec ['C', 'B'] ['C'] 3]) = "WF" ∧
+    c01Model (c01Pkg false ['C'] [tspec ['C', 'A'] ['C'] (-1), tspec ['C', 'B'] ['C'] 3]) = (0, true, true) := by decide
 
 /-- and a plain package is in WF with an all-ok prediction -/
 example : c01Region (c01Pkg false ['F'] [tspec ['F', 'A'] ['F'] 1, tspec ['F', 'B'] ['F'] 2]) = "WF" ∧
